@@ -323,8 +323,9 @@ def gen_ops(rng, tier):
     """string ops: list of dict(kind, line, tag, meta)"""
     ops = []
 
-    def norm(tag, mode, dmax, cps):
-        ops.append(dict(kind="norm", mode=mode, dmax=dmax, src=cps, tag=tag, line="uni=norm mode=%d dmax=%d src=%s" % (mode, dmax, hexs(cps))))
+    def norm(tag, mode, dmax, cps, swap=0):
+        ops.append(dict(kind="norm", mode=mode, dmax=dmax, src=cps, tag=tag,
+                        line="uni=norm mode=%d dmax=%d src=%s%s" % (mode, dmax, hexs(cps), " swap=1" if swap else "")))
 
     strs = gen_strings(rng, tier)
     for tag, cps in strs:
@@ -333,6 +334,19 @@ def gen_ops(rng, tier):
         if tag == "random" and rng.random() < 0.15:
             norm(tag + "-fcc", 3, 64, cps)
             norm(tag + "-fcd", 2, 64, cps)
+    # every combining mark against a representative of the neighbouring classes, both orders (a wrong class in the table shows
+    # as a wrong order), in both memory layouts alternately
+    R = reference()
+    reps = [0x334, 0x94D, 0x316, 0x300, 0x345] if tier == "quick" else sorted({k: c for c, k in sorted(R["ccc"].items(), reverse=True)}.values())
+    for i, m in enumerate(R["marks"]):
+        for r_ in reps:
+            if r_ != m:
+                norm("mark-pair", 0, 16, [0x61, m, r_], swap=i & 1)
+                norm("mark-pair", i & 1, 16, [0x61, r_, m], swap=(i >> 1) & 1)
+    for tag, cps in strs[::5]:
+        if tag == "random":
+            norm("random-swapped", 0, 64, cps, swap=1)
+            norm("random-swapped", 1, 64, cps, swap=1)
     # dmax from minimal to ample
     sample = [cps for tag, cps in strs if tag in ("random", "pair")]
     rng.shuffle(sample)
@@ -360,6 +374,7 @@ def gen_ops(rng, tier):
                 cps = base[:pos] + [b] + base[pos:]
                 for mode in (0, 1, 2, 3):
                     norm("out-of-range" if b > UMAX else "surrogate", mode, 64, cps)
+                    norm("out-of-range" if b > UMAX else "surrogate", mode, 64, cps, swap=1)     # dest behind src: the loop's other branch
                 tag = "out-of-range" if b > UMAX else "surrogate"
                 ops.append(dict(kind="reorder", dmax=64, src=cps, tag=tag, line="uni=reorder dmax=64 src=%s" % hexs(cps)))
                 for contig in (0, 1):
@@ -502,8 +517,10 @@ def run_config(res, known, slack, opt, tier, seed, sides, full):
                 fails = [] if dc.get("sig", "0") == "0" and int(dc["ret"]) < 0 else [("towfc_s:bad-dmax-accepted", str(dc))]
             chk.record(o["line"], dc, dm, fails, True, o["tag"], agree_towfc)
             continue
-        chk.record(o["line"], dc, dm, oracle_for(o, dc), True, o["tag"])
-        if o["kind"] == "norm" and o["mode"] in (0, 1) and dc.get("sig", "0") == "0" and dc.get("ret") == "0" and o["tag"] not in ("dmax-sweep", "dmax-limit"):
+        fails = oracle_for(o, dc)
+        chk.record(o["line"], dc, dm, fails, True, o["tag"])
+        # a result the oracle already rejected (e.g. the known truncation defect) is not a normalization form: only correct results are re-normalized
+        if not fails and o["kind"] == "norm" and o["mode"] in (0, 1) and dc.get("sig", "0") == "0" and dc.get("ret") == "0" and o["tag"] not in ("dmax-sweep", "dmax-limit"):
             second.append((o, cells(dc["out"])))
     # idempotence on the implementation: normalize every result once more
     lines2 = ["uni=norm mode=%d dmax=%d src=%s" % (o["mode"], min(1024, 4 * len(out1) + 8), hexs(out1)) for o, out1 in second]
